@@ -257,7 +257,14 @@ func (m *MW) StepQuoteLimits() {
 				}
 			}
 			if bolt == "" {
-				bolt = W.LN.NewExternalInvoice(amt * 1000).Bolt11
+				// an invoice with msat precision: the quote is for the amount rounded UP to whole sat, and
+				// that amount is what the melt maximum applies to (1 msat above the maximum is above it)
+				msat := amt * 1000
+				if m.T.Chance("lim.msat", 1, 2) {
+					msat -= uint64([]int{999, 500, 1}[m.T.Choose("lim.msat.rem", 3)])
+					m.rc.S.Probe("c16_melt_quote_limit_msat_invoice")
+				}
+				bolt = W.LN.NewExternalInvoice(msat).Bolt11
 			}
 			_, r := m.Atk.ReqMeltQuote(mint, bolt, 0)
 			reject := lim.MeltingSettings.MaxAmount > 0 && amt > lim.MeltingSettings.MaxAmount
